@@ -198,7 +198,7 @@ func (p *Program) builderASCII(fn *ssa.Function, strCall *ssa.Call, depth int) (
 			if ok, why := p.provablyASCII(fn, src, c.(ssa.Instruction), depth+1); !ok {
 				return false, "builder byte write: " + why
 			}
-		case "(*strings.Builder).String", "(*strings.Builder).Len":
+		case "(*strings.Builder).String", "(*strings.Builder).Len", "(*strings.Builder).Grow", "(*strings.Builder).Cap":
 		default:
 			return false, "builder passed to " + calleeName(c.Common())
 		}
@@ -385,8 +385,8 @@ func checkDecodeGuards(p *Program, r *Result, dec, cb *ssa.Function) {
 		// every data symbol in the charset
 		okSym := false
 		for _, l := range rangeLoops(dec) {
-			if l.Kind != "rangeiter" || len(p.loopEarlyExits(l)) != 0 {
-				continue
+			if len(p.loopEarlyExits(l)) != 0 {
+				continue // a range over the data part, by rune or (the string being ASCII by then) by byte
 			}
 			for _, rt := range returnsOf(dec) {
 				if !l.inLoop(rt.Block()) {
@@ -394,7 +394,8 @@ func checkDecodeGuards(p *Program, r *Result, dec, cb *ssa.Function) {
 				}
 				facts := tb.FactsAt(rt.Block())
 				if _, ok := findFact(facts, func(a Atom) bool {
-					return a.Kind == "cmp" && a.Op == "==" && a.Y.S == "-1" && a.X.Op == "Call" && a.X.S == "strings.IndexRune" && short(a.X.Args[0].String()) == specConst(r, "bech32.charset")
+					neg := a.Op == "==" && a.Y.S == "-1" || a.Op == "<" && a.Y.S == "0" || a.Op == "<=" && a.Y.S == "-1"
+					return a.Kind == "cmp" && neg && a.X.Op == "Call" && (a.X.S == "strings.IndexRune" || a.X.S == "strings.IndexByte") && short(a.X.Args[0].String()) == specConst(r, "bech32.charset")
 				}); ok && !isNilConst(resultsOf(rt)[2]) {
 					okSym = true
 				}
